@@ -14,7 +14,7 @@ import (
 // predicts each round's outcome exactly. This unit judges the notification aspect.
 func TestC14_Rounds(t *testing.T) {
 	pbt.Run(t, pbt.Config{Prop: "C14", Unit: "TestC14_Rounds", TrackCurrent: true,
-		Rule: "1..2 publishers, one subscriber (unsegmented or segments of 1..3, own hook or the library's general hook, MaxAsyncConcurrency unset/1/2, plain or discovery transport), two listeners; 2..8 rounds, each publishing 0..3 ads and then running exactly one operation to exact quiescence: announcement, explicit sync, resync (WithAdsResync), sync with an explicit older stop CID (WithStopAdCid), announcement whose sender information has only a non-HTTP address or no address, announcement or explicit sync during which the publisher answers 500 for one block still to be fetched. Oracle (reference model of latest-sync per publisher): both listeners receive the same notifications; every sync that completed and set latest-sync produced exactly one, with the head CID, the publisher and the number of blocks handed to the hook in that round; every failed announce-triggered sync exactly one carrying the error and the announced CID; failed explicit syncs and syncs with nothing to do none. Non-trivial: at least one round failed as designed; distinct by case.",
+		Rule: "1..2 publishers, one subscriber (unsegmented or segments of 1..3, own hook or the library's general hook, MaxAsyncConcurrency unset/1/2, plain or discovery transport), two listeners; 2..8 rounds, each publishing 0..3 ads and then running exactly one operation to exact quiescence: announcement, explicit sync (the publisher named by the AddrInfo's ID or only by the /p2p component of its addresses), resync (WithAdsResync), sync with an explicit older stop CID (WithStopAdCid), announcement whose sender information has only a non-HTTP address or no address, announcement or explicit sync during which the publisher answers 500 for one block still to be fetched. Oracle (reference model of latest-sync per publisher): both listeners receive the same notifications; every sync that completed and set latest-sync produced exactly one, with the head CID, the publisher and the number of blocks handed to the hook in that round; every failed announce-triggered sync exactly one carrying the error and the announced CID; failed explicit syncs and syncs with nothing to do none. Non-trivial: at least one round failed as designed; distinct by case.",
 	}, world.GenRounds, func(c world.RoundsCase) (res pbt.Result) {
 		var rr world.RoundsResult
 		defer func() {
